@@ -27,7 +27,7 @@ RULE = ("CID in {valid, rejected, missing} x every list of 0..3 data files over 
         "on a freshly loaded CID. Non-trivial: at least two data files. Distinct = distinct case.")
 EXHAUSTIVE = {"quick": False, "thorough": True}
 TRUSTED = ["argparse turns unusable arguments into SystemExit(2)", "a missing path or a directory raises OSError when opened"]
-ASSUMPTIONS = ["data files are delimited text; CID files are CSV"]
+ASSUMPTIONS = ["readable data files are delimited text (files that cannot be read: all four formats); CID files are CSV"]
 
 SPEC = {"format": "delimited", "header": 0,
         "fields": [{"name": "k", "empty": False, "type": "Text", "choices": [], "length": None},
@@ -36,7 +36,10 @@ SPEC = {"format": "delimited", "header": 0,
 # the same CID with an end check that fails on zero rows: an unreadable file must still exit 3, not 1
 SPEC_LOWER = dict(SPEC, checks=[{"kind": "unique", "cols": [0]}, {"kind": "distinct", "col": 0, "op": ">=", "n": 2}])
 # the same CID with header rows: --until N counts them exactly like the API's validation limit does
-SPECS = {"plain": SPEC, "lower": SPEC_LOWER, "header1": dict(SPEC, header=1), "header2": dict(SPEC, header=2)}
+SPECS = {"plain": SPEC, "lower": SPEC_LOWER, "header1": dict(SPEC, header=1), "header2": dict(SPEC, header=2),
+         # the other formats, for files that cannot be read at all (what a readable container holds is C15 / C16 / C13)
+         "ods": dict(SPEC, format="ods"), "excel": dict(SPEC, format="excel"),
+         "fixed": dict(SPEC, format="fixed", fields=[dict(SPEC["fields"][0], length=[[3, 3]]), dict(SPEC["fields"][1], length=[[1, 1]])])}
 FILES = {
     "accepted": [["a", "x"], ["b", "y"]],
     "field": [["a", "x"], ["b", "zz"], ["c", "x"]],
@@ -54,7 +57,8 @@ def make_case(inp):
     SPEC = SPECS[inp.get("spec", "plain")]
     with CLI.Workdir() as w:
         if cid_kind == "missing":
-            cid_path = w.missing("nocid.csv")
+            # a CID that is not there, or a folder of that name; the name decides which reader is asked
+            cid_path = w.directory(inp["cid_name"]) if inp.get("cid_dir") else w.missing(inp.get("cid_name", "nocid.csv"))
         else:
             cid_path = w.write_cid(SPEC, broken=(cid_kind == "rejected"))
         paths = []
@@ -131,7 +135,24 @@ def direct_oracle(inp, obs):
     return None
 
 
+def classify(inp, obs, msg):
+    """the open finding: a data file of an ODS interface that cannot be read is answered with 1"""
+    if inp.get("spec") == "ods" and inp["cid"] == "valid" and obs["exit"] == 1 and "unreadable" in obs["fresh"] \
+            and (inp["until"] is None or (isinstance(inp["until"], int) and inp["until"] >= -1)):
+        return "C18/ods-unreadable-file-exit-1"
+    return None
+
+
 def gen_inputs(tier, rnd):
+    for spec_name in ("ods", "excel", "fixed"):
+        for files in (["missing"], ["dir"], ["missing", "dir"], ["dir", "missing", "missing"]):
+            for until in (None, 0, 2):
+                yield {"cid": "valid", "files": files, "until": until, "spec": spec_name}
+        yield {"cid": "valid", "files": [], "until": None, "spec": spec_name}
+    for cid_name in ("nocid.ods", "nocid.xls", "nocid.xlsx", "nocid.txt", "nocid"):
+        for files in ([], ["accepted"], ["missing"]):
+            yield {"cid": "missing", "files": files, "until": None, "cid_name": cid_name}
+            yield {"cid": "missing", "files": files, "until": None, "cid_name": cid_name, "cid_dir": True}
     kinds = [k for k in FILES if k != "single"]
     lists = [[]] + [list(p) for n in (1, 2, 3) for p in itertools.product(kinds, repeat=n)]
     if tier == "quick":
